@@ -51,6 +51,9 @@ def level1_direct(rep):
     n = 0
     for ctx, (kind, res) in explore(body):
         n += 1
+        if kind == "unsupported":
+            rep.obligation(f"getBH_level1@path{n}.path-outside-the-verified-subset", {"status": "unknown", "backend": "symex", "time_s": 0, "reason": str(res)[:200]}, fn["function"])
+            continue
         if kind == "exc":
             r = {"status": "refuted", "backend": "symex", "time_s": 0}
             rep.obligation(f"getBH_level1@path{n}.no-exception", r, fn["function"])
